@@ -23,6 +23,9 @@ class DirWorld:
         w = self
 
         def mark(v, h, loc, n):
+            if isinstance(v, dict) and h == "o":
+                # an object type's output hook returns a NEW object whose leaves are marked (what it returns is what the next stage sees)
+                return {k: mark(x, h, loc, n) for k, x in v.items()}
             return v + "<%s%s%d>" % (h, loc, n) if isinstance(v, str) and "(" in v else v
 
         for name, (loc, _where) in DIRS.items():
@@ -67,8 +70,8 @@ enum E%s { X%s  Y }
 input In%s { f: Sx%s  e: E }
 type T%s { s: Sx }
 interface I { n: Sx }
-type IA implements I { n: Sx%s }
-type IB implements I { n: Sx%s }
+type IA implements I%s { n: Sx%s }
+type IB implements I%s { n: Sx%s }
 type Query {
   items: [I]
   fs(a: Sx%s): Sx%s
@@ -77,7 +80,7 @@ type Query {
   o: T
 }
 """ % (tags("ts", c["s"]), tags("te", c["e"]), tags("tv", c["v"]), tags("tio", c["io"]), tags("tif", c["if"]), tags("to", c["o"]),
-       tags("tf", c["f"]), tags("tf", c["f"]),
+       tags("to", c["o"]), tags("tf", c["f"]), tags("to", c["o"]), tags("tf", c["f"]),
        tags("ta", c["a"]), tags("tf", c["f"]), tags("ta", c["a"]), tags("tf", c["f"]), tags("ta", c["a"]), tags("tf", c["f"]))
         self.sdl = sdl
 
@@ -168,9 +171,12 @@ def job(j):
             if mm and len(st["viol"]) < 400:
                 genrun.add_viol(st["viol"], ({"kind": "directive-mismatch", "request": kind, "first": mm[0][:120]},
                                              {"cfg": c, "sdl": w.sdl, "request": w.requests[kind][:2], "mismatches": mm, "log": w.log}))
-        st["n"] += 1
+        st["n"] += 2
         resp, q = w.run_merged()
+        resp_again, _q = w.run_merged()        # the same text once more: per-document state must not accumulate
         mm = []
+        if resp_again != resp:
+            mm.append("merged: the second execution of the same text answers %r, the first %r" % (resp_again, resp))
         if not isinstance(resp, dict) or resp.get("errors") or "__raised__" in resp:
             mm.append("merged: errors %r" % (resp,))
         else:
